@@ -104,6 +104,76 @@ func r08_1(c *RC) {
 	} else {
 		c.Bad("slot-offsets", sf.Pos(), "saltFromTime derives salts for the instants [%s] s relative to the rounded time; the protocol (and the sender's use of index 1) requires previous, current, next 2-minute slot in this order", strings.Join(offs, ","))
 	}
+	// the key list keeps the order of the salts: key k is derived from salt k
+	// (what makes "index 1" the current slot at the sender)
+	if nl := p.Fn("pkg/cipher", "newBlockCipherList"); nl == nil {
+		c.Anchor("cipher.newBlockCipherList")
+	} else {
+		saltF := p.Field("pkg/cipher", "pbkdf2Gen", "Salt")
+		n := 0
+		for _, s := range p.FieldStores(saltF) {
+			if s.Fn != nl {
+				continue
+			}
+			n++
+			inOrder, why := false, "the salt is "+describe(s.Val)
+			for _, l := range Leaves(s.Val, nil) {
+				ld, ok := l.(*ssa.UnOp)
+				if !ok || ld.Op != token.MUL {
+					continue
+				}
+				ia, ok := ld.X.(*ssa.IndexAddr)
+				if !ok {
+					continue
+				}
+				fromSalts := false
+				for _, b := range Leaves(ia.X, nil) {
+					if cl, ok := b.(*ssa.Call); ok && calleeName(cl) == "saltFromTime" {
+						fromSalts = true
+					}
+				}
+				if !fromSalts {
+					continue
+				}
+				// the index is the loop counter itself: 0, 1, 2, ...
+				var phi *ssa.Phi
+				switch x := ia.Index.(type) {
+				case *ssa.Phi:
+					phi = x
+				case *ssa.BinOp:
+					if pp, ok := x.X.(*ssa.Phi); ok && x.Op == token.ADD && isOneConst(x.Y) {
+						phi = pp
+					}
+				}
+				if phi == nil {
+					why = "salts[" + describe(ia.Index) + "] is not indexed by the loop counter"
+					continue
+				}
+				start, step := false, false
+				for _, e := range phi.Edges {
+					if k, ok := constInt(e); ok && (k == 0 || k == -1) {
+						start = true
+					}
+					if bo, ok := e.(*ssa.BinOp); ok && bo.Op == token.ADD && bo.X == ssa.Value(phi) && isOneConst(bo.Y) {
+						step = true
+					}
+				}
+				if start && step {
+					inOrder = true
+				} else {
+					why = "the salt index does not count 0, 1, 2"
+				}
+			}
+			if inOrder {
+				c.OKH("key-list-order", s.Pos(), "cipher k of the list is derived from salt k (loop counter from 0 in steps of 1)")
+			} else {
+				c.Bad("key-list-order", s.Pos(), "newBlockCipherList does not build the key list in the order of the salts (%s): the sender's cipherList[1] is then not the current slot's key, and a peer whose clock differs by up to a minute in one direction has no key in common", why)
+			}
+		}
+		if n == 0 {
+			c.Undecided("key-list-order", nl.Pos(), "no pbkdf2Gen.Salt assignment found in newBlockCipherList")
+		}
+	}
 	// client uses cipherList[1]
 	if bf := p.Fn("pkg/cipher", "BlockCipherFromPassword"); bf == nil {
 		c.Anchor("cipher.BlockCipherFromPassword")
@@ -630,4 +700,10 @@ func foldSaltInstants(p *Prog, sf *ssa.Function) ([]string, bool) {
 		return nil, false
 	}
 	return out, len(out) > 0
+}
+
+
+func isOneConst(v ssa.Value) bool {
+	k, ok := constInt(v)
+	return ok && k == 1
 }
